@@ -14,6 +14,18 @@ Notation "' p <- e ;; k" := (bindT e (fun p => k)) (at level 61, p pattern, e at
 Definition div_p (a b : N) : trap N := if b =? 0 then Trap else Val (a / b).
 Definition rem_p (a b : N) : trap N := if b =? 0 then Trap else Val (a mod b).
 
+(** plain [+] and [-] on u32 under a build profile *)
+Definition add32_p (p : profile) (a b : N) : trap N :=
+  match p with
+  | Debug => if a + b <=? U32MAX then Val (a + b) else Trap
+  | Release => Val ((a + b) mod two32)
+  end.
+Definition sub32_p (p : profile) (a b : N) : trap N :=
+  match p with
+  | Debug => if b <=? a then Val (a - b) else Trap
+  | Release => Val ((a + two32 - b) mod two32)
+  end.
+
 (** Vec<u64> *)
 Definition vec_len (v : list N) : N := N.of_nat (length v).
 (** Vec::resize(new_len, value) *)
